@@ -122,7 +122,14 @@ func runSolverCtx(parent context.Context, sd solverDef, script string, timeoutS 
 	err := cmd.Run()
 	el := time.Since(start).Seconds()
 	text := out.String()
-	first := strings.TrimSpace(strings.SplitN(text, "\n", 2)[0])
+	first := ""
+	for _, l := range strings.Split(text, "\n") {
+		// z3 prints pattern warnings (a pattern containing ite/and/not is ignored) before its answer
+		if l = strings.TrimSpace(l); l != "" && !strings.HasPrefix(l, "WARNING:") {
+			first = l
+			break
+		}
+	}
 	res := SolveResult{Solver: sd.name, Seconds: el, Output: text}
 	switch first {
 	case "unsat", "sat", "unknown":
